@@ -1,6 +1,7 @@
 package main
 
 import (
+	"golang.org/x/tools/go/ssa"
 	"fmt"
 	"go/ast"
 	"go/token"
@@ -631,6 +632,72 @@ func checkNameSpaces(c *Ctx, ev *evaluator) {
 		return
 	}
 	c.Analysed(funcKey(sp, synth))
+	// the name is chosen by looking at the alternatives themselves: the memo keeps two sets of alternatives apart whenever they
+	// differ, so a name derived from a cut-down copy (empty alternatives dropped, a prefix) is shared by sets the memo separates
+	if sfn := c.SSAFunc(sp, synth); sfn != nil {
+		var sparam *ssa.Parameter
+		for _, prm := range sfn.Params[1:] {
+			if _, ok := prm.Type().Underlying().(*types.Slice); ok {
+				sparam = prm
+			}
+		}
+		if sparam != nil {
+			var cut func(v ssa.Value, depth int) (fromParam, sliced bool)
+			seen := map[ssa.Value]bool{}
+			cut = func(v ssa.Value, depth int) (bool, bool) {
+				if v == ssa.Value(sparam) {
+					return true, false
+				}
+				if depth > 8 || seen[v] {
+					return false, false
+				}
+				seen[v] = true
+				defer delete(seen, v)
+				switch x := v.(type) {
+				case *ssa.Slice:
+					f, _ := cut(x.X, depth+1)
+					return f, f
+				case *ssa.Phi:
+					from, sl := false, false
+					for _, e := range x.Edges {
+						f2, s2 := cut(e, depth+1)
+						from = from || f2
+						sl = sl || s2
+					}
+					return from, sl
+				}
+				return false, false
+			}
+			looked, cutPos := 0, token.NoPos
+			for _, b := range sfn.Blocks {
+				for _, in := range b.Instrs {
+					var operand ssa.Value
+					switch x := in.(type) {
+					case *ssa.Call:
+						if bi, ok := x.Call.Value.(*ssa.Builtin); ok && bi.Name() == "len" {
+							operand = x.Call.Args[0]
+						}
+					case *ssa.IndexAddr:
+						operand = x.X
+					}
+					if operand == nil {
+						continue
+					}
+					if from, sliced := cut(operand, 0); from {
+						looked++
+						if sliced && cutPos == token.NoPos {
+							cutPos = in.Pos()
+						}
+					}
+				}
+			}
+			if looked > 0 {
+				c.Check("R1.2", "a synthesised name is chosen from the alternatives as they are keyed in the memo, not from a cut-down copy", synth.Pos(), cutPos == token.NoPos,
+					"the name synthesiser examines a re-sliced copy of its alternatives ("+c.rel(cutPos)+"): sets of alternatives that the memo keeps apart (with and without an empty alternative) are given the same non-terminal, and their productions are merged",
+					"second = (item) \".\"  together with  first = (item |) \".\"  in one specification: `second` also derives \".\"")
+			}
+		}
+	}
 	var formats []string
 	ast.Inspect(synth.Body, func(n ast.Node) bool {
 		if call, ok := n.(*ast.CallExpr); ok {
